@@ -39,7 +39,7 @@ SameParam(p, v) == p.ty = v.ty /\ (IF v.ty = "str" THEN p.codes = v.codes ELSE p
 ParamsAreValues(c) == Len(c.param.params) = Len(c.vals) /\ \A i \in DOMAIN c.vals : SameParam(c.param.params[i], c.vals[i])
 Equivalent(c) ==
   LET sub == Q!Subst(c.param.read.ast, c.param.params) IN
-  \/ Q!SameAst(sub, c.inline.read.ast)
+  \/ Q!SameAst(Q!NormBetween(sub), Q!NormBetween(c.inline.read.ast))
   \/ /\ \A i \in DOMAIN c.probes : Q!WellTyped(sub, Row(c, c.probes[i])) /\ Q!WellTyped(c.inline.read.ast, Row(c, c.probes[i]))
      /\ \A i \in DOMAIN c.probes : Q!EvalSql(sub, Row(c, c.probes[i])) = Q!EvalSql(c.inline.read.ast, Row(c, c.probes[i]))
 \* where the two renderers disagree because the INLINE text has one of the known C03 defects (the parameterized
@@ -53,8 +53,10 @@ C04adv(c) ==
   ELSE IF c.param.out # "ok" THEN <<Fail("C04", c, "ToPostgres succeeds but ToParameterizedPostgres does not", "none")>>
   ELSE (IF c.param.read.pg_ok /\ c.param.read.nplace = Len(c.param.params) /\ Q!ParamsOf(c.param.read.ast) = [i \in 1..Len(c.param.params) |-> i]
         THEN <<>> ELSE <<Fail("C04", c, "placeholders and parameters do not correspond one to one", "none")>>)
-    \o (IF c.param.read.pg_ok /\ c.inline.read.pg_ok /\ Q!SameAst(Q!Subst(c.param.read.ast, c.param.params), c.inline.read.ast) THEN <<>>
-        ELSE <<Fail("C04", c, "substituting the parameters does not give the inline predicate", "none")>>)
+    \o (IF c.param.read.pg_ok /\ c.inline.read.pg_ok
+           /\ Q!SameAst(Q!NormBetween(Q!Subst(c.param.read.ast, c.param.params)), Q!NormBetween(c.inline.read.ast)) THEN <<>>
+        ELSE <<Fail("C04", c, "substituting the parameters does not give the inline predicate",
+                    IF KF!KF_C04_MixedKindRange(c.inline.read.ast, c.param.read.ast, c.param.params) THEN "C04-mixed-kind-range" ELSE "none")>>)
 C04(c) ==
   IF c.kind = "adv" THEN C04adv(c) ELSE
   IF c.inline.out # "ok" THEN <<>>
